@@ -279,7 +279,14 @@ static double static_numeric_dev(const mjModel* a, const mjModel* b) {
       double d = dp < dm ? dp : dm; if (d != d) d = INFINITY; if (d > mx) mx = d;
     }
   }
-  if (a->ncam == b->ncam) for (int i = 0; i < 3 * a->ncam; i++) { double d = reldev(a->cam_pos[i], b->cam_pos[i]); if (d > mx) mx = d; }
+  if (a->ncam == b->ncam) {
+    for (int i = 0; i < 3 * a->ncam; i++) { double d = reldev(a->cam_pos[i], b->cam_pos[i]); if (d > mx) mx = d; }
+    for (int i = 0; i < a->ncam; i++) {
+      double dp = 0, dm = 0;
+      for (int j = 0; j < 4; j++) { double x = fabs(a->cam_quat[4 * i + j] - b->cam_quat[4 * i + j]), y = fabs(a->cam_quat[4 * i + j] + b->cam_quat[4 * i + j]); if (x > dp) dp = x; if (y > dm) dm = y; }
+      double d = dp < dm ? dp : dm; if (d != d) d = INFINITY; if (d > mx) mx = d;
+    }
+  }
   if (a->nu == b->nu) for (int i = 0; i < a->nu; i++) { double d = reldev(a->actuator_acc0[i], b->actuator_acc0[i]); if (d > mx) mx = d; }
   if (a->ntendon == b->ntendon) for (int i = 0; i < a->ntendon; i++) { double d = reldev(a->tendon_length0[i], b->tendon_length0[i]); if (d > mx) mx = d; d = reldev(a->tendon_invweight0[i], b->tendon_invweight0[i]); if (d > mx) mx = d; }
 #undef CMP
